@@ -9,25 +9,6 @@ import OsmoVerif.Proofs.GammRealLpExact
 namespace OsmoVerif.GammMath
 open OsmoVerif.Num OsmoVerif.MathM OsmoVerif.Gen OsmoVerif.Spec
 
-/-- integer rounding: a raw value above `c − 1` is at least `c`. -/
-theorem int_ge_of_dv {y c : Int} (h : dv c - 1 / 10 ^ 18 < dv y) : c ≤ y := by
-  unfold dv at h
-  have h10 : (0 : ℝ) < 10 ^ 18 := by positivity
-  have : (c : ℝ) - 1 < y := by
-    have e : (c : ℝ) / 10 ^ 18 - 1 / 10 ^ 18 = ((c : ℝ) - 1) / 10 ^ 18 := by ring
-    rw [e, div_lt_div_iff_of_pos_right h10] at h; exact h
-  have : c - 1 < y := by exact_mod_cast this
-  omega
-
-theorem int_le_of_dv {y c : Int} (h : dv y < dv c + 1 / 10 ^ 18) : y ≤ c := by
-  unfold dv at h
-  have h10 : (0 : ℝ) < 10 ^ 18 := by positivity
-  have : (y : ℝ) < c + 1 := by
-    have e : (c : ℝ) / 10 ^ 18 + 1 / 10 ^ 18 = ((c : ℝ) + 1) / 10 ^ 18 := by ring
-    rw [e, div_lt_div_iff_of_pos_right h10] at h; exact h
-  have : y < c + 1 := by exact_mod_cast this
-  omega
-
 theorem quoErr_lt_ulp : quoErr < 1 / 10 ^ 18 := by unfold quoErr; norm_num
 
 theorem dv_half : dv (5 * 10 ^ 17) = 1 / 2 := by unfold dv; norm_num
